@@ -1,1 +1,485 @@
-fn main() {}
+//! C15 — HTML sanitization is idempotent and leaves already-clean documents unchanged; deprecated
+//! elements and attributes are rewritten to their documented replacements.
+//!
+//! Requests (codec as in h-c14: strings `s<hex utf-8>`, `<cfg>` the 14-field array, forests
+//! `<count> node…`):
+//!   `c15.twice <cfg> <html> <forest of Html::parse(html)>` → `ok <forest after sanitizing the same
+//!       Html object twice>`; Lean MODEL: `clean (clean f)`. T3 (plain configurations): the tree
+//!       and the serialization after the second pass equal those after the first.
+//!   `c15.fix <cfg> <html> <forest of Html::parse(out1)>`, `out1 = to_string(sanitize(parse(html)))`
+//!       → `ok <forest of sanitize(parse(out1))>`; Lean MODEL: `clean f`. T3 (plain): the tree is
+//!       unchanged, `to_string` equals `Html::parse(out1).to_string()`, and `sanitize_html(out1)`
+//!       equals it too ("sanitizing sanitized output is a plain parse-and-reserialize").
+//!   `c15.unchanged <mode> <rrf> <html> <forest of Html::parse(html)>` → `t`/`f`: does sanitizing
+//!       leave the parsed tree unchanged? Lean SPEC: `allowedB` (document of the allow-list grammar).
+//!       T3: the harness' own allow-list predicate (spec tables) agrees with what happened.
+//!   `c15.rewrite <mode> <rrf> <html> <forest of Html::parse(html)>` → `ok <forest after sanitizing>`
+//!       if the tree with font→span, font[color]→data-mx-color, strike→s applied is in the grammar,
+//!       else `skip`. Lean SPEC: the rewritten tree (`rewriteDeprecatedL`) under the same condition.
+#[path = "../../h-c14/src/common.rs"]
+mod common;
+#[path = "../../h-c14/src/extract.rs"]
+mod extract;
+#[path = "../../h-c14/src/gen.rs"]
+mod gen;
+#[path = "../../h-c14/src/spec.rs"]
+mod spec;
+
+use common::*;
+use h_lib::{h_util, stok, Outcome, Req, Rng};
+use ruma_html::{remove_html_reply_fallback, sanitize_html, Html, RemoveReplyFallback};
+
+fn unstr(t: &str) -> Option<String> {
+    h_util::unhex_str(t.strip_prefix('s')?)
+}
+fn mode_tok(m: u8) -> &'static str {
+    match m {
+        0 => "none",
+        1 => "strict",
+        _ => "compat",
+    }
+}
+fn parse_mode(s: &str) -> Option<u8> {
+    match s {
+        "strict" => Some(1),
+        "compat" => Some(2),
+        _ => None,
+    }
+}
+fn plain(m: u8, rrf: bool) -> Cfg {
+    let mut c = Cfg::mode(m);
+    c.rrf = rrf;
+    c
+}
+
+/// The string entry point that corresponds to a plain configuration, if there is one.
+fn string_api(cfg: &Cfg, src: &str) -> Option<String> {
+    if !cfg.is_plain() {
+        return None;
+    }
+    match cfg.sanitizer_mode() {
+        Some(m) => {
+            let r = if cfg.rrf { RemoveReplyFallback::Yes } else { RemoveReplyFallback::No };
+            Some(sanitize_html(src, m, r))
+        }
+        None if cfg.rrf => Some(remove_html_reply_fallback(src)),
+        None => None,
+    }
+}
+
+fn sanitize_to_string(cfg: &Cfg, src: &str) -> String {
+    let html = Html::parse(src);
+    html.sanitize_with(&cfg.build());
+    html.to_string()
+}
+
+// ------------------------------------------------------------------ request builders
+
+fn twice_req(cfg: &Cfg, src: &str) -> String {
+    format!("c15.twice {} {}{}", cfg.toks(), stok(src), forest_toks(&dump(&Html::parse(src))))
+}
+fn fix_req(cfg: &Cfg, src: &str) -> String {
+    let out1 = sanitize_to_string(cfg, src);
+    format!("c15.fix {} {}{}", cfg.toks(), stok(src), forest_toks(&dump(&Html::parse(&out1))))
+}
+fn unchanged_req(m: u8, rrf: bool, src: &str) -> String {
+    format!("c15.unchanged {} {} {}{}", mode_tok(m), if rrf { "t" } else { "f" }, stok(src), forest_toks(&dump(&Html::parse(src))))
+}
+fn rewrite_req(m: u8, rrf: bool, src: &str) -> String {
+    format!("c15.rewrite {} {} {}{}", mode_tok(m), if rrf { "t" } else { "f" }, stok(src), forest_toks(&dump(&Html::parse(src))))
+}
+
+// ------------------------------------------------------------------ the harness' own spec side
+
+fn has_other(f: &[N]) -> bool {
+    f.iter().any(|n| match n {
+        N::O => true,
+        N::E { ch, .. } => has_other(ch),
+        N::T(_) => false,
+    })
+}
+
+/// Is the forest a document of the allow-list grammar of the plain configuration? (spec tables)
+fn in_grammar(cfg: &Cfg, f: &[N]) -> bool {
+    let mut fails = Vec::new();
+    Policy { c: cfg }.walk(f, 0, "doc", &[], &mut fails);
+    fails.is_empty() && !has_other(f)
+}
+
+/// The documented rewriting of deprecated markup, written from `spec::DEPRECATED_*`: element and
+/// attribute names only; the attribute set is a set again (sorted, duplicates collapse).
+fn rewrite_deprecated(f: &[N]) -> Vec<N> {
+    f.iter()
+        .map(|n| match n {
+            N::E { name, attrs, ch } => {
+                let new_name = spec::DEPRECATED_ELEMENTS
+                    .iter()
+                    .find(|(o, _)| *o == name)
+                    .map(|(_, n)| n.to_string())
+                    .unwrap_or_else(|| name.clone());
+                let has_table = spec::DEPRECATED_ATTRS.iter().any(|(e, _, _)| *e == name);
+                let mut new_attrs: Vec<(String, String, String)> = attrs
+                    .iter()
+                    .map(|(q, a, v)| {
+                        let a2 = spec::DEPRECATED_ATTRS
+                            .iter()
+                            .find(|(e, o, _)| *e == name && *o == a)
+                            .map(|(_, _, n)| n.to_string())
+                            .unwrap_or_else(|| a.clone());
+                        (q.clone(), a2, v.clone())
+                    })
+                    .collect();
+                if has_table {
+                    new_attrs.sort();
+                    new_attrs.dedup();
+                }
+                N::E { name: new_name, attrs: new_attrs, ch: rewrite_deprecated(ch) }
+            }
+            other => other.clone(),
+        })
+        .collect()
+}
+
+// ------------------------------------------------------------------ running the implementation
+
+fn parse_cfg_src<'a>(toks: &'a [&'a str]) -> Option<(Cfg, String, String)> {
+    let mut it = toks.iter();
+    let v = h_util::parse_tokens(&mut it)?;
+    let cfg = Cfg::from_value(&v)?;
+    let src = it.next().and_then(|t| unstr(t))?;
+    let rest: Vec<&str> = it.copied().collect();
+    Some((cfg, src, rest.join(" ")))
+}
+
+fn run_twice(cfg: &Cfg, src: &str, tree_toks: &str) -> Outcome {
+    let real = cfg.build();
+    let html = Html::parse(src);
+    if forest_toks(&dump(&html)).trim_start() != tree_toks {
+        return Outcome::bad();
+    }
+    html.sanitize_with(&real);
+    let once = dump(&html);
+    let once_str = html.to_string();
+    html.sanitize_with(&real);
+    let twice = dump(&html);
+    let twice_str = html.to_string();
+    let mut t3 = Vec::new();
+    if cfg.is_plain() {
+        if once != twice {
+            t3.push(format!(
+                "sanitizing the same Html twice differs from once: once {once_str:?}, twice {twice_str:?}"
+            ));
+        } else if once_str != twice_str {
+            t3.push("serialization differs after a second sanitization of the same Html".into());
+        }
+    }
+    Outcome { imp: format!("ok{}", forest_toks(&merge_text(twice))), t3 }
+}
+
+fn run_fix(cfg: &Cfg, src: &str, tree_toks: &str) -> Outcome {
+    let real = cfg.build();
+    let out1 = sanitize_to_string(cfg, src);
+    let html = Html::parse(&out1);
+    let before = dump(&html);
+    if forest_toks(&before).trim_start() != tree_toks {
+        return Outcome::bad();
+    }
+    let plain_reserialized = html.to_string();
+    html.sanitize_with(&real);
+    let after = dump(&html);
+    let out2 = html.to_string();
+    let mut t3 = Vec::new();
+    if cfg.is_plain() {
+        if after != before {
+            t3.push(format!(
+                "sanitizing sanitized output changes it: input {src:?}, first output {out1:?}, its parse-and-reserialize {plain_reserialized:?}, second output {out2:?}"
+            ));
+        } else if out2 != plain_reserialized {
+            t3.push(format!("sanitize(out1) = {out2:?} differs from serialize(parse(out1)) = {plain_reserialized:?}"));
+        }
+        if let Some(s) = string_api(cfg, &out1) {
+            if s != plain_reserialized {
+                t3.push(format!(
+                    "sanitize_html applied to its own output {out1:?} gives {s:?}, a plain parse-and-reserialize gives {plain_reserialized:?}"
+                ));
+            }
+        }
+    }
+    t3.truncate(3);
+    Outcome { imp: format!("ok{}", forest_toks(&merge_text(after))), t3 }
+}
+
+fn run_unchanged(m: u8, rrf: bool, src: &str, tree_toks: &str) -> Outcome {
+    let cfg = plain(m, rrf);
+    let html = Html::parse(src);
+    let before = dump(&html);
+    if forest_toks(&before).trim_start() != tree_toks {
+        return Outcome::bad();
+    }
+    let reserialized = html.to_string();
+    html.sanitize_with(&cfg.build());
+    let after = dump(&html);
+    let unchanged = after == before;
+    let mut t3 = Vec::new();
+    let grammar = in_grammar(&cfg, &before);
+    if grammar && !unchanged {
+        t3.push(format!(
+            "a document built only from allowed elements, attributes, schemes and classes within the depth limit was changed: {reserialized:?} -> {:?}",
+            html.to_string()
+        ));
+    }
+    if !grammar && unchanged {
+        t3.push(format!("a document outside the allow-list grammar was returned unchanged: {reserialized:?}"));
+    }
+    if unchanged {
+        if let Some(s) = string_api(&cfg, src) {
+            if s != reserialized {
+                t3.push("sanitize_html of an unchanged document differs from its parse-and-reserialize".into());
+            }
+        }
+    }
+    Outcome { imp: if unchanged { "t".into() } else { "f".into() }, t3 }
+}
+
+fn run_rewrite(m: u8, rrf: bool, src: &str, tree_toks: &str) -> Outcome {
+    let cfg = plain(m, rrf);
+    let html = Html::parse(src);
+    let before = dump(&html);
+    if forest_toks(&before).trim_start() != tree_toks {
+        return Outcome::bad();
+    }
+    let want = rewrite_deprecated(&before);
+    if has_other(&before) || !in_grammar(&cfg, &want) {
+        return Outcome::new("skip");
+    }
+    html.sanitize_with(&cfg.build());
+    let after = dump(&html);
+    let mut t3 = Vec::new();
+    if after != want {
+        t3.push(format!(
+            "deprecated elements/attributes are not rewritten to their documented replacements with content and other attributes preserved: {src:?} -> {:?}",
+            html.to_string()
+        ));
+    }
+    // the rewritten document is a fixpoint
+    let out1 = html.to_string();
+    if sanitize_to_string(&cfg, &out1) != Html::parse(&out1).to_string() {
+        t3.push(format!("the rewritten document {out1:?} is not a fixpoint of sanitization"));
+    }
+    Outcome { imp: format!("ok{}", forest_toks(&merge_text(after))), t3 }
+}
+
+fn run(req: &str) -> Outcome {
+    let toks: Vec<&str> = req.split(' ').collect();
+    let bad = Outcome::bad;
+    match toks[0] {
+        "c15.twice" => match parse_cfg_src(&toks[1..]) {
+            Some((cfg, src, tree)) => run_twice(&cfg, &src, &tree),
+            None => bad(),
+        },
+        "c15.fix" => match parse_cfg_src(&toks[1..]) {
+            Some((cfg, src, tree)) => run_fix(&cfg, &src, &tree),
+            None => bad(),
+        },
+        op @ ("c15.unchanged" | "c15.rewrite") if toks.len() >= 5 => {
+            let (Some(m), Some(rrf), Some(src)) = (
+                parse_mode(toks[1]),
+                match toks[2] {
+                    "t" => Some(true),
+                    "f" => Some(false),
+                    _ => None,
+                },
+                unstr(toks[3]),
+            ) else {
+                return bad();
+            };
+            let tree = toks[4..].join(" ");
+            if op == "c15.unchanged" {
+                run_unchanged(m, rrf, &src, &tree)
+            } else {
+                run_rewrite(m, rrf, &src, &tree)
+            }
+        }
+        _ => bad(),
+    }
+}
+
+// ------------------------------------------------------------------ generation
+
+/// One disallowed thing put into a grammar document (or a harmless edit): the document is then
+/// (mostly) outside the grammar and must be changed.
+fn perturb(rng: &mut Rng, doc: &str) -> String {
+    let inserts: &[&str] = &[
+        "<script>x</script>", "<!-- c -->", "<span style=\"x\">y</span>", "<a href=\"javascript:x\">l</a>",
+        "<img src=\"https://x/y\">", "<code class=\"x\">c</code>", "<code class=\"language-a x\">c</code>",
+        "<font color=\"red\">f</font>", "<strike>s</strike>", "<x-foo>t</x-foo>", "<a href=\"matrix:u/a:b\">m</a>",
+        "<mx-reply>r</mx-reply>", "<div class=\"x\">d</div>", "<a name=\"n\">l</a>", "<ol type=\"a\"><li>i</li></ol>",
+        "<span data-mx-color=\"red\" title=\"t\">s</span>", "<a href=\"https://x\" target=\"_blank\">ok</a>",
+        "<svg><a xlink:href=\"https://x\">t</a></svg>", "<img alt=\"a\" src=\"mxc://s/m\" srcset=\"x\">",
+        "<code class=\" language-a \">c</code>", "<code class=\"language-a  language-b\">c</code>",
+        "<a href=\" https://x\">l</a>", "<a href=\"HTTPS://x\">l</a>", "<del>d</del>", "<p>p</p>",
+    ];
+    let ins = gen::pick(rng, inserts);
+    // insert at a tag boundary (before a random '<') or at the end
+    let cuts: Vec<usize> = doc.char_indices().filter(|(_, c)| *c == '<').map(|(i, _)| i).collect();
+    if cuts.is_empty() || rng.chance(1, 4) {
+        format!("{doc}{ins}")
+    } else {
+        let i = cuts[rng.below(cuts.len())];
+        format!("{}{}{}", &doc[..i], ins, &doc[i..])
+    }
+}
+
+fn any_doc(rng: &mut Rng, i: usize) -> (String, &'static str) {
+    match i % 20 {
+        0 => {
+            let k = 90 + rng.below(220);
+            (gen::gen_deep(rng, k), "deep")
+        }
+        1 => {
+            let k = 95 + rng.below(12);
+            (gen::gen_deep(rng, k), "deep.boundary")
+        }
+        2..=5 => (gen::gen_doc(rng, &gen::HOSTILE), "hostile"),
+        6 | 7 => (gen::gen_doc(rng, &gen::TABLEY), "tables"),
+        8 | 9 => {
+            let compat = rng.chance(1, 2);
+            (gen::gen_allowed_doc(rng, compat, true, true), "allowed")
+        }
+        10 => {
+            let mut docs = Vec::new();
+            gen::foreign_docs(rng, &mut docs);
+            (docs[rng.below(docs.len())].clone(), "foreign")
+        }
+        _ => (gen::gen_doc(rng, &gen::MIXED), "mixed"),
+    }
+}
+
+fn gen(rng: &mut Rng, n: usize, tier: &str) -> Vec<Req> {
+    let thorough = tier == "thorough";
+    let mut reqs = Vec::new();
+    let plains = gen::plain_cfgs(); // strict, strict+rrf, compat, compat+rrf, none+rrf
+
+    // fixed witnesses: F3, the namespaced attribute, chained replacements
+    for (m, rrf, d) in [
+        (1u8, false, "<a class=\"x\" href=\"javascript:alert(1)\">t</a>"),
+        (2, true, "<img alt=\"a\" src=\"http://x/y\">"),
+        (1, false, "<svg><a xlink:href=\"https://x\">t</a></svg>"),
+        (2, false, "<math><a xlink:href=\"https://x\" href=\"https://y\">t</a></math>"),
+        (1, true, "<font color=\"#f00\" data-mx-color=\"#f00\"><strike>t</strike></font>"),
+        (1, false, "<font color=\"#f00\" data-mx-color=\"#0f0\">t</font>"),
+    ] {
+        let c = plain(m, rrf);
+        reqs.push(Req::new(twice_req(&c, d), "witness.twice"));
+        reqs.push(Req::new(fix_req(&c, d), "witness.fix"));
+        reqs.push(Req::new(unchanged_req(m, rrf, d), "witness.unchanged"));
+        reqs.push(Req::new(rewrite_req(m, rrf, d), "witness.rewrite"));
+    }
+    let mut chained = Cfg::mode(0);
+    chained.replace_elements = Some((false, vec![("big".into(), "b".into()), ("b".into(), "strong".into())]));
+    reqs.push(Req::new(twice_req(&chained, "<big>t</big>"), "witness.chained"));
+    reqs.push(Req::new(fix_req(&chained, "<big>t</big>"), "witness.chained"));
+
+    // scheme spellings and attribute subsets: idempotence on the cells C14 is about
+    let mut docs = Vec::new();
+    gen::scheme_matrix(&mut docs);
+    let step = if thorough { 1 } else { 5 };
+    for (i, d) in docs.iter().enumerate() {
+        if i % step == 0 {
+            let c = &plains[rng.below(4)];
+            reqs.push(Req::new(fix_req(c, d), "schemes.fix"));
+        }
+    }
+    for el in ["a", "img", "span", "code", "font", "ol", "div"] {
+        let mut docs = Vec::new();
+        gen::attr_subsets(rng, el, if thorough { 11 } else { 2 }, &mut docs);
+        for d in &docs {
+            let c = plains[rng.below(5)].clone();
+            match rng.below(3) {
+                0 => reqs.push(Req::new(twice_req(&c, d), format!("attrsets.{el}.twice"))),
+                1 => reqs.push(Req::new(fix_req(&c, d), format!("attrsets.{el}.fix"))),
+                _ => {
+                    let m = 1 + rng.below(2) as u8;
+                    reqs.push(Req::new(rewrite_req(m, rng.chance(1, 2), d), format!("attrsets.{el}.rewrite")));
+                }
+            }
+        }
+    }
+
+    // depth boundary: allowed elements nested exactly k deep
+    for k in (1..=6).chain(96..=104).chain([150, 250]) {
+        let d = gen::gen_allowed_deep(rng, k);
+        for (m, rrf) in [(1u8, false), (2, true)] {
+            reqs.push(Req::new(unchanged_req(m, rrf, &d), "grammar.depth"));
+            reqs.push(Req::new(fix_req(&plain(m, rrf), &d), "grammar.depth.fix"));
+        }
+    }
+
+    for i in 0..n {
+        match i % 10 {
+            // idempotence on arbitrary inputs, plain configurations (T3 asserted) …
+            0..=2 => {
+                let k = rng.below(20);
+                let (doc, cls) = any_doc(rng, k);
+                let c = plains[rng.below(5)].clone();
+                if rng.chance(1, 2) {
+                    reqs.push(Req::new(fix_req(&c, &doc), format!("{cls}.fix.plain")));
+                } else {
+                    reqs.push(Req::new(twice_req(&c, &doc), format!("{cls}.twice.plain")));
+                }
+            }
+            // … and random builder configurations (model comparison)
+            3 | 4 => {
+                let k = rng.below(20);
+                let (doc, cls) = any_doc(rng, k);
+                let c = gen::gen_cfg(rng);
+                let k = if c.is_plain() { "plain" } else { "custom" };
+                if rng.chance(1, 2) {
+                    reqs.push(Req::new(fix_req(&c, &doc), format!("{cls}.fix.{k}")));
+                } else {
+                    reqs.push(Req::new(twice_req(&c, &doc), format!("{cls}.twice.{k}")));
+                }
+            }
+            // documents of the allow-list grammar are unchanged
+            5 | 6 => {
+                let m = 1 + rng.below(2) as u8;
+                let rrf = rng.chance(1, 2);
+                let doc = gen::gen_allowed_doc(rng, m == 2, false, !rrf);
+                reqs.push(Req::new(unchanged_req(m, rrf, &doc), "grammar"));
+            }
+            // one edit away from the grammar; sanitized outputs; arbitrary documents
+            7 => {
+                let m = 1 + rng.below(2) as u8;
+                let rrf = rng.chance(1, 2);
+                let doc = gen::gen_allowed_doc(rng, m == 2, false, !rrf);
+                let doc = perturb(rng, &doc);
+                reqs.push(Req::new(unchanged_req(m, rrf, &doc), "grammar.perturbed"));
+            }
+            8 => {
+                let m = 1 + rng.below(2) as u8;
+                let rrf = rng.chance(1, 2);
+                let k = rng.below(20);
+                let (doc, cls) = any_doc(rng, k);
+                if rng.chance(1, 2) {
+                    let out1 = sanitize_to_string(&plain(m, rrf), &doc);
+                    reqs.push(Req::new(unchanged_req(m, rrf, &out1), format!("{cls}.sanitized.unchanged")));
+                } else {
+                    reqs.push(Req::new(unchanged_req(m, rrf, &doc), format!("{cls}.unchanged")));
+                }
+            }
+            // deprecated markup inside grammar documents
+            _ => {
+                let m = 1 + rng.below(2) as u8;
+                let rrf = rng.chance(1, 2);
+                let doc = gen::gen_allowed_doc(rng, m == 2, true, !rrf);
+                let doc = if rng.chance(1, 5) { perturb(rng, &doc) } else { doc };
+                reqs.push(Req::new(rewrite_req(m, rrf, &doc), "deprecated"));
+            }
+        }
+    }
+    reqs
+}
+
+fn main() {
+    h_lib::std_main(Some(&|| extract::extract("C15")), &gen, &run);
+}
